@@ -26,9 +26,12 @@ Proved here:
 * the amend classification of the kernel model and the `carry_on` decision of the director.
 
 Stated limits: content that changes and changes back between the two hash points is invisible
-to the mechanism (ABA); the theorem speaks about the two hash points.  An input that is
-UNCONFIRMED at completion is not among the inputs checked then (`completionInputs`): that is the
-code's behaviour and the root of the finding `stale-input-on-succeeded-step` of the oracle.
+to the mechanism (ABA); the theorem speaks about the two hash points.  An input that is not
+BUILT/CONFIRMED at completion (re-declared and UNCONFIRMED, or OUTDATED because its producer became
+pending) is not among the inputs checked then (`completionInputs`), and the records compared at
+completion are the current rows, not the ones verified before the command: that is the code's
+behaviour (the correspondence confirms it) and the root of the oracle's findings
+`succeeded-on-stale-input:input-unchecked-at-completion` and `...:record-updated-during-run`.
 That the cached `_ready` column equals its definition for steps that are not flagged is C10's
 cache invariant, decided by C10's oracle.
 -/
